@@ -350,6 +350,17 @@ def run_c04_real(ctx):
     it = LogInterp(code, {fn: sc.func_impl(fn) for fn in sc.funcs})
     it.set_up(sc.t0, sc.dt0, {k: (v.copy() if isinstance(v, np.ndarray) else v) for k, v in sc.state0.items()})
     n_steps = 1 + tape.draw(6, "steps")
+    from simdag.core.outcome import Discard
+    from simdag.gen.expr import IllDefined
+    from simdag.model.refstepper import RefStepper
+    try:
+        pre = RefStepper(sc, ap.nm)
+        pre.set_up(sc.t0, sc.dt0, sc.state0)
+        for _ in range(n_steps):
+            if isinstance(pre.step(), tuple):
+                break
+    except IllDefined as e:
+        raise Discard("ill-defined-horizon:" + e.reason.split(":")[-1])
     outcomes = []
     max_visits = 0
     for step in range(n_steps):
